@@ -172,8 +172,11 @@ def observe(case, en):
 
     # ---- force_algorithm, seen through a wrapper of the layout function ----------------------------------
     if case["call"] in ("force", "both"):
+        libcost: list = []
+
         def run_force():
             calls = []
+            libcost.clear()
 
             def wrap(d, kp=1.0, verbose=False, visualize=None, max_iter=100):
                 res = orig_layout(d, kp, verbose, visualize, max_iter)
@@ -190,6 +193,11 @@ def observe(case, en):
                     cost = fr.total_intersection_area(rd) + wl / 2
                 except Exception:
                     cost = math.nan
+                try:   # the library's own number, bit for bit what force_algorithm compares (conformance ranks only)
+                    lib = fr.total_intersection_area(rd) + rd.netlist.wire_length / 2
+                except Exception:
+                    lib = math.nan
+                libcost.append(lib)
                 calls.append((kp, cost, "|".join(_centres(rd, S)[2])))
                 return res
             fr.fruchterman_reingold_layout = wrap
@@ -202,6 +210,7 @@ def observe(case, en):
         calls = []
         try:
             rF, calls = run_force()
+            first_lib = list(libcost)
             ok, fin, bitsA = _centres(rF, S)
             t.update(ret=1, ok=ok, fin=fin, sig1=_sig(rF), bitsA=bitsA, bitsV=bitsA, snaps=[])
             try:
@@ -216,11 +225,14 @@ def observe(case, en):
             fin_c = [c for (_k, c, _l) in tried if isinstance(c, float) and math.isfinite(c)]
             mx = max([abs(c) for c in fin_c] + [0.0])
             sc = 1e8 / mx if mx > 0 else 1.0
-            order = sorted(set(c for c in fin_c))                      # exact order of the costs (dense rank, 1 = smallest)
-            rank = {c: i + 1 for i, c in enumerate(order)}
+            # exact order of the library's own costs of the first run (dense rank, 1 = smallest): what the scan compares
+            lc = first_lib[:len(tried)]
+            order = sorted(set(x for x in lc if isinstance(x, float) and math.isfinite(x)))
+            rank_of = {x: i + 1 for i, x in enumerate(order)}
+            ranks = [rank_of.get(x, COSTINF) for x in lc] + [COSTINF] * (len(tried) - len(lc))
             traces.append({"kind": "sel", "call": "force_algorithm", "n": n,
-                           "tried": [[round(k * 1000), round(c * sc), l, rank[c]] if (isinstance(c, float) and math.isfinite(c))
-                                     else [round(k * 1000), COSTINF, l, COSTINF] for (k, c, l) in tried],
+                           "tried": [[round(k * 1000), round(c * sc), l, ranks[i]] if (isinstance(c, float) and math.isfinite(c))
+                                     else [round(k * 1000), COSTINF, l, COSTINF] for i, (k, c, l) in enumerate(tried)],
                            "final_kappa": round(calls[-1][0] * 1000),
                            "lay": "|".join(t["bitsA"])})
         elif t["ret"]:
@@ -231,6 +243,41 @@ def observe(case, en):
 
 def run_case(case):
     return {en: observe(case, en) for en in case["embs"]}
+
+
+def observe_bits(case, en):
+    """The same calls once more, in ANOTHER process (a freshly forked child with no history): only the bit patterns
+    of the returned centres, per call -> {"layout": [...], "force_algorithm": [...]}"""
+    from frame.geometry.geometry import Rectangle
+    from frame.netlist.netlist import Netlist
+    from frame.die.die import Die
+    import tools.force.fruchterman_reingold as fr
+    emb = EMBEDDINGS[en]
+    Rectangle.undefine_epsilon()
+    try:
+        nld, died = build(case, emb)
+        die = Die(died, Netlist(nld))
+    except Exception as e:
+        return {"layout": [f"rejected {type(e).__name__}"], "force_algorithm": [f"rejected {type(e).__name__}"]}
+    S = float(max(die.width, die.height))
+    out = {}
+    if case["call"] in ("layout", "both"):
+        try:
+            r, _ = fr.fruchterman_reingold_layout(copy.deepcopy(die), case["kappa1000"] / 1000, False, None, case["n"])
+            out["layout"] = _centres(r, S)[2]
+        except Exception as e:
+            out["layout"] = [f"raised {type(e).__name__}"]
+    if case["call"] in ("force", "both"):
+        try:
+            r, _ = fr.force_algorithm(copy.deepcopy(die), False, None, case["n"])
+            out["force_algorithm"] = _centres(r, S)[2]
+        except Exception as e:
+            out["force_algorithm"] = [f"raised {type(e).__name__}"]
+    return out
+
+
+def run_case_bits(case):
+    return {en: observe_bits(case, en) for en in case["embs"]}
 
 
 # ------------------------------------------------------------------------------------------ cases
@@ -320,7 +367,7 @@ def random_cases(rng: random.Random, count: int) -> list[dict]:
 
 
 # ------------------------------------------------------------------------------------------ judging
-def decide(ctx: Ctx, cases: list[dict]):
+def decide(ctx: Ctx, cases: list[dict], stride: int = 1):
     prepare_imports()
     import frame.die.die  # noqa: F401  (imported in the parent, used only in children)
     import frame.netlist.netlist  # noqa: F401
@@ -328,9 +375,15 @@ def decide(ctx: Ctx, cases: list[dict]):
     for i, c in enumerate(cases):
         c.setdefault("embs", [ORIGIN0[i % len(ORIGIN0)], ORIGIN0[(i + 3) % len(ORIGIN0)]])
     results = run_cases(run_case, cases, nproc=16, case_timeout=300)
+    # cross-process determinism: the same cases once more, each in its own freshly forked child (the first pass ran them
+    # in worker processes that had already executed other cases); `stride` bounds the cost in the thorough tier
+    second = {}
+    xsel = [i for i in range(len(cases)) if i % stride == 0]
+    for i, (st2, val2) in zip(xsel, run_cases(run_case_bits, [cases[i] for i in xsel], nproc=16, fresh=True, case_timeout=300)):
+        second[i] = val2 if st2 == "ok" else {en: {"layout": ["worker_" + st2], "force_algorithm": ["worker_" + st2]} for en in cases[i]["embs"]}
     traces, meta = {}, {}
     rejected = 0
-    for c, (st, val) in zip(cases, results):
+    for ci, (c, (st, val)) in enumerate(zip(cases, results)):
         if st != "ok":
             ctx.violation("returns", {"case": c}, {"status": st}, {"clause": "returns", "call": c["call"], "exception": "worker_" + st})
             continue
@@ -342,6 +395,8 @@ def decide(ctx: Ctx, cases: list[dict]):
                     ctx.extra["rejected_examples"].append({"why": obs["rejected"], "embedding": en, "case": c})
                 continue
             for t in obs:
+                if t["kind"] == "run":      # [] = not repeated in another process
+                    t["bitsX"] = second[ci][en].get(t["call"], []) if (ci in second and t.get("ret") == 1) else []
                 key = digest([t, c["W"], c["H"], en])
                 t["id"] = key
                 traces[key] = t
@@ -371,6 +426,8 @@ def decide(ctx: Ctx, cases: list[dict]):
                     detail.update(before=t["sig0"][part], after=t["sig1"][part])
                 if clause == "deterministic":
                     detail.update(bitsA=t["bitsA"], bitsB=t["bitsB"])
+                if clause == "deterministic_across_processes":
+                    detail.update(bitsA=t["bitsA"], bitsX=t["bitsX"])
                 if "exception" in t:
                     detail["exception"] = t["exception"]
             else:
@@ -408,7 +465,7 @@ def run(ctx: Ctx) -> int:
     cases = [from_tlc(g, rng, i) for i, g in enumerate(gen)]
     n_tlc = len(cases)
     cases += random_cases(rng, 120 if tier == "quick" else 1500)
-    decide(ctx, cases)
+    decide(ctx, cases, stride=1 if tier == "quick" else 2)
     ctx.extra["embeddings"] = ORIGIN0
     ctx.extra["cases_from_tlc"] = n_tlc
     ctx.extra["cases_random"] = len(cases) - n_tlc
@@ -417,7 +474,8 @@ def run(ctx: Ctx) -> int:
         "any number coincident); fixed modules with rectangles lie inside the die and do not overlap (Die rejects anything else)",
         "float dimension sampled: every case under 2 of the 7 origin-0 embeddings (rotating), not enumerated",
         "'not moved' and 'inside the die' judged to 1e-9 of the larger die side; determinism judged on the bit patterns of the "
-        "returned centres of two executions on equal (deep-copied) inputs in one process",
+        "returned centres of two executions on equal (deep-copied) inputs in one process, and of a third execution in a separate, "
+        "freshly forked child process (every case in the quick tier, every second case in the thorough tier)",
         "best-of: costs recomputed with the library's own total_intersection_area and wire_length on the layouts that "
         "force_algorithm itself produced (wrapper on the module-level name), compared after scaling to 1e-8 of the largest cost",
         "the optimiser itself is not predicted: the spec is a contract (what an iteration may do), not the force computation",
